@@ -467,7 +467,8 @@ def block_diagonalize(
         i: (
             (np.abs(diagonal[i].reshape(-1, 1) - diagonal[i]) <= atol).astype(int)
             if diagonal[i].dtype != object  # numerical array, else sympy
-            else ((diagonal[i].reshape(-1, 1) == diagonal[i]) == True)  # noqa E712
+            # Same criterion as the solver: the difference of the energies vanishes.
+            else ((diagonal[i].reshape(-1, 1) - diagonal[i]) == 0)
         )
         for i in set(fully_diagonalize)
     }
